@@ -1,3 +1,5 @@
+import Mathlib.Tactic.Ring
+import Mathlib.Tactic.Linarith
 import ElexModel.Core.Versioned
 import ElexModel.Gen.C17
 import ElexModel.Lemmas.Num
@@ -210,5 +212,42 @@ theorem bridge_shape : Gen.C17.shape =
      "np.divide(results_turnout, results_turnout[-1], out=np.zeros_like(results_turnout, dtype=float), where=results_turnout[-1] != 0, casting='unsafe')",
      "np.searchsorted(percent_vote, percs, side='right')",
      "obs_indices = np.searchsorted(percent_vote, percs, side='right') - 1"] := rfl
+
+end ElexModel.Versioned
+
+namespace ElexModel.Versioned
+open ElexModel
+
+/-- **C17 on the source**: with the interpolation formula as written in `/repo/src` today, at a percent with an earlier observation
+    the imputed margin is the convex combination `λ · (last observed margin) + (1 − λ) · (next batch margin)`, `λ = observed / perc` -/
+theorem source_est_convex (oi nm0 nmc pv bc perc : ℚ) (hoi : oi ≠ -1) (hp : perc ≠ 0) :
+    Gen.C17.est_numerator (Gen.C17.observed_norm_margin oi nm0 nmc) (Gen.C17.observed_vote oi pv)
+        (Gen.C17.observed_batch_margin oi nm0 bc) perc / perc =
+      (pv / perc) * nmc + (1 - pv / perc) * bc := by
+  unfold Gen.C17.est_numerator Gen.C17.observed_norm_margin Gen.C17.observed_vote Gen.C17.observed_batch_margin
+  simp only [hoi, decide_false, Bool.false_eq_true, if_false]
+  field_simp
+
+/-- … and before the first observation it is the first observed margin -/
+theorem source_est_before_first (nm0 nmc pv bc perc : ℚ) (hp : perc ≠ 0) :
+    Gen.C17.est_numerator (Gen.C17.observed_norm_margin (-1) nm0 nmc) (Gen.C17.observed_vote (-1) pv)
+        (Gen.C17.observed_batch_margin (-1) nm0 bc) perc / perc = nm0 := by
+  unfold Gen.C17.est_numerator Gen.C17.observed_norm_margin Gen.C17.observed_vote Gen.C17.observed_batch_margin
+  simp only [decide_true, if_true]
+  field_simp
+  ring
+
+/-- … hence within `[-1, 1]` whenever the observed margin and the batch margin are and the observation is not after `perc` -/
+theorem source_est_bounded (oi nm0 nmc pv bc perc : ℚ) (hoi : oi ≠ -1) (hp : 0 < perc) (h0 : 0 ≤ pv) (h1 : pv ≤ perc)
+    (hn : |nmc| ≤ 1) (hb : |bc| ≤ 1) :
+    |Gen.C17.est_numerator (Gen.C17.observed_norm_margin oi nm0 nmc) (Gen.C17.observed_vote oi pv)
+        (Gen.C17.observed_batch_margin oi nm0 bc) perc / perc| ≤ 1 := by
+  rw [source_est_convex oi nm0 nmc pv bc perc hoi hp.ne']
+  have hl0 : 0 ≤ pv / perc := div_nonneg h0 hp.le
+  have hl1 : pv / perc ≤ 1 := by rw [div_le_one hp]; exact h1
+  obtain ⟨n1, n2⟩ := abs_le.mp hn
+  obtain ⟨b1, b2⟩ := abs_le.mp hb
+  rw [abs_le]
+  constructor <;> nlinarith
 
 end ElexModel.Versioned
